@@ -125,6 +125,30 @@ func plain(resp *op.Response, err error) (*op.Response, error) {
 	return &op.Response{Header: resp.Header.Clone(), Data: resp.Data}, nil
 }
 
+// plainRedirect does the same for redirects
+func plainRedirect(red *op.Redirect, err error) (*op.Redirect, error) {
+	if err != nil || red == nil {
+		return red, err
+	}
+	if len(red.Header) == 0 {
+		return &op.Redirect{URL: red.URL}, nil
+	}
+	return &op.Redirect{Header: red.Header.Clone(), URL: red.URL}, nil
+}
+
+func (s *appServer) Authorize(ctx context.Context, r *op.ClientRequest[oidc.AuthRequest]) (*op.Redirect, error) {
+	return plainRedirect(s.LegacyServer.Authorize(ctx, r))
+}
+func (s *appServer) EndSession(ctx context.Context, r *op.Request[oidc.EndSessionRequest]) (*op.Redirect, error) {
+	return plainRedirect(s.LegacyServer.EndSession(ctx, r))
+}
+func (s *appServer) VerifyClient(ctx context.Context, r *op.Request[op.ClientCredentials]) (op.Client, error) {
+	// credentials are looked at on a copy as well
+	cc := *r.Data
+	cp := *r
+	cp.Data = &cc
+	return s.LegacyServer.VerifyClient(ctx, &cp)
+}
 func (s *appServer) Health(ctx context.Context, r *op.Request[struct{}]) (*op.Response, error) {
 	return plain(s.LegacyServer.Health(ctx, r))
 }
